@@ -9,6 +9,7 @@ package coop
 import (
 	"fmt"
 	"hash/fnv"
+	"os"
 	"reflect"
 	"runtime"
 	"sort"
@@ -110,6 +111,9 @@ var S *Sched
 
 func Active() bool { return S != nil }
 
+// Trace prints every scheduling step (replay / debugging).
+var Trace = os.Getenv("COOP_TRACE") != ""
+
 type killT struct{}
 
 // Run executes body as the main thread and keeps scheduling until every thread
@@ -185,6 +189,9 @@ func Run(ch Chooser, horizon int, body func()) *Sched {
 			break
 		}
 		t.started = true
+		if Trace {
+			fmt.Printf("  step %3d: T%d resumes at %s (enabled %d)\n", s.steps, t.id, t.what, len(en))
+		}
 		t.wake <- struct{}{}
 		<-s.parked
 	}
@@ -272,6 +279,9 @@ func Point(what string, wait func() bool) {
 	t := s.cur
 	t.wait = wait
 	t.what = what
+	if Trace {
+		t.what = what + " @ " + callSite()
+	}
 	s.parked <- t
 	<-t.wake
 	if s.killed {
@@ -280,6 +290,31 @@ func Point(what string, wait func() bool) {
 	t.wait = nil
 	t.yielded = false
 	s.ops++
+}
+
+// callSite returns the first frames outside the verification shims.
+func callSite() string {
+	pcs := make([]uintptr, 24)
+	n := runtime.Callers(3, pcs)
+	fr := runtime.CallersFrames(pcs[:n])
+	var out []string
+	for {
+		f, more := fr.Next()
+		if !strings.Contains(f.File, "/shim/") && !strings.Contains(f.File, "zzverif") && !strings.Contains(f.File, "/instr/sema/") || strings.Contains(f.File, "/harness/") {
+			fn := f.Function
+			if i := strings.LastIndex(fn, "/"); i >= 0 {
+				fn = fn[i+1:]
+			}
+			out = append(out, fmt.Sprintf("%s:%d", fn, f.Line))
+			if len(out) == 3 {
+				break
+			}
+		}
+		if !more {
+			break
+		}
+	}
+	return strings.Join(out, " < ")
 }
 
 // Yield is what runtime.Gosched in a spin loop becomes: the spinner is
